@@ -7,7 +7,7 @@ from props import c03
 
 PROPERTY = 'C16'
 LEVEL = 'exploration'
-RULE = ('trees parse(src) of G1 programs (all node kinds; optional parts present and absent, tracked as a '
+RULE = ('trees parse(src) of programs nested 130-470 levels deep in eight patterns (else-if ladders, blocks, operator chains, arrays, calls, functions, member chains, conditionals) and of G1 programs (all node kinds; optional parts present and absent, tracked as a '
         '(kind, attribute, present/absent) table) and of the repository snippets. Oracle by reflection: the set of '
         'nodes reachable through instance attributes (Node values, lists of Nodes, the base-class child list; '
         'per-node metadata - positions, literal-token table, sourcepath, attached comments - excluded) must be '
@@ -257,7 +257,26 @@ def plan(tier, seed):
     n = 2400 if tier == 'quick' else 100000
     shards = [{'name': 'g1-%d' % k, 'kind': 'g1', 'n': n // 16, 'hseed': seed * 1000 + k} for k in range(16)]
     shards.append({'name': 'corpus', 'kind': 'corpus'})
+    # trees nested a few hundred levels (well inside what the walker handles under the default recursion limit)
+    depths = [130, 255, 300, 470] if tier == 'quick' else [64, 130, 200, 249, 250, 251, 255, 256, 257, 300, 333, 400,
+                                                          450, 470]
+    for i, pat in enumerate(sorted(DEEP)):
+        # two tree levels per source level in the call pattern: stay clear of what the recursive walker can do at all
+        shards.append({'name': 'deep-' + pat, 'kind': 'deep', 'pattern': pat,
+                       'depths': [d for d in depths if d <= (300 if pat == 'calls' else 470)]})
     return shards
+
+
+DEEP = {
+    'else_if': lambda d: ''.join('if (a%d) { f(%d); } else ' % (i, i) for i in range(d)) + '{ g(); }',
+    'blocks': lambda d: '{ x; ' * d + 'y;' + ' z; }' * d,
+    'binary_left': lambda d: 'r = ' + ' + '.join('a%d' % i for i in range(d + 1)) + ';',
+    'arrays': lambda d: 'v = ' + '[1, ' * d + '0' + ', 2]' * d + ';',
+    'calls': lambda d: 'f(' * d + 'x' + ', 1)' * d + ';',
+    'functions': lambda d: 'function f() { ' * (d // 2) + 'return 1;' + ' }' * (d // 2),
+    'members': lambda d: 'o' + ''.join('.p%d[%d]' % (i, i) for i in range(d // 2)) + ' = 1;',
+    'conditional_right': lambda d: 'r = ' + ''.join('c%d ? %d : ' % (i, i) for i in range(d)) + '0;',
+}
 
 
 def optional_table(acc, walked):
@@ -295,6 +314,16 @@ def run_shard(shard):
                           st.lists(st.sampled_from(KINDS), min_size=1, max_size=4),
                           st.sampled_from(['a', 'b', '1', '"s"', 'x', '+', 'this']))
         run_given(strat, lambda x: one(x[0]['text'], x[1], x[2]), shard['n'], shard['hseed'], acc)
+    elif shard['kind'] == 'deep':
+        import sys
+        limit = sys.getrecursionlimit()
+        sys.setrecursionlimit(1000)   # the interpreter's default, which the harness raises elsewhere
+        try:
+            for d in shard['depths']:
+                acc.label('deep_%s' % shard['pattern'])
+                one(DEEP[shard['pattern']](d), ['Identifier', 'FunctionCall', 'If', 'Array'], 'x')
+        finally:
+            sys.setrecursionlimit(limit)
     else:
         for src in c03.load_corpus():
             one(src, ['Identifier', 'Assign'], 'a')
